@@ -6,6 +6,7 @@ import (
 	"fmt"
 	"sort"
 	"strings"
+	"sync"
 	"testing"
 	"time"
 
@@ -549,5 +550,132 @@ func TestC07L1(t *testing.T) {
 			nt := info.Excluded == "" && info.Model.Committed && (info.Model.GCDeleted > 0 || info.Model.WeakPruned > 0 || len(info.Ops) >= 2)
 			return []string{"l1:update-checked"}, nt, nil
 		})
+	})
+}
+
+type c07OrderCase struct {
+	Monitors  []string  `json:"monitors"` // method and acknowledgement delay of each monitoring peer
+	Writers   int       `json:"writers"`
+	PerWriter int       `json:"transactionsPerWriter"`
+	Seen      [][]int64 `json:"counterValuesSeenPerMonitor,omitempty"`
+}
+
+// TestC07Order: exactly one notification per committed transaction, in commit order, also
+// when several connections commit at the same time and some monitors are slow to
+// acknowledge. Every transaction increments one counter, so each monitor must be told
+// the values 1, 2, ..., N in this order.
+func TestC07Order(t *testing.T) {
+	w := c16World(t)
+	rapid.Check(t, func(t *rapid.T) {
+		srv, err := kit.StartServer(w)
+		if err != nil {
+			t.Fatalf("server: %v", err)
+		}
+		defer srv.Close()
+		kase := c07OrderCase{}
+		fail := func(class, format string, args ...interface{}) {
+			kit.Fail(t, "C07", class, kase, format, args...)
+		}
+		setup, err := kit.DialRaw(srv.Sock)
+		if err != nil {
+			t.Fatalf("dial: %v", err)
+		}
+		defer setup.Close()
+		if _, err := setup.Transact("DB", []json.RawMessage{json.RawMessage(`{"op":"insert","table":"T0","row":{"marker":"ctr","n":0}}`)}); err != nil {
+			t.Fatalf("harness: %v", err)
+		}
+		nm := rapid.IntRange(2, 3).Draw(t, "nmonitors")
+		var mons []*kit.RawPeer
+		for i := 0; i < nm; i++ {
+			method := rapid.SampledFrom([]string{"monitor", "monitor_cond", "monitor_cond_since"}).Draw(t, "method")
+			delay := time.Duration(rapid.SampledFrom([]int{0, 0, 1, 3, 8}).Draw(t, "ackdelayms")) * time.Millisecond
+			kase.Monitors = append(kase.Monitors, fmt.Sprintf("%s ack-delay=%v", method, delay))
+			p, err := kit.DialRaw(srv.Sock)
+			if err != nil {
+				t.Fatalf("dial: %v", err)
+			}
+			defer p.Close()
+			if delay > 0 {
+				p.Hold = func(kit.Notification) { time.Sleep(delay) }
+			}
+			args := []interface{}{"DB", fmt.Sprintf("m%d", i), map[string]interface{}{"T0": map[string]interface{}{"columns": []string{"n", "marker"}}}}
+			if method == "monitor_cond_since" {
+				args = append(args, kit.ZeroUUID)
+			}
+			var reply json.RawMessage
+			if err := p.Call(method, args, &reply); err != nil {
+				fail("monitor.error", "%s: %v", method, err)
+			}
+			mons = append(mons, p)
+		}
+		nw := rapid.IntRange(2, 4).Draw(t, "nwriters")
+		per := rapid.IntRange(1, 4).Draw(t, "perwriter")
+		kase.Writers, kase.PerWriter = nw, per
+		var wg sync.WaitGroup
+		errs := make(chan error, nw*per)
+		start := make(chan struct{})
+		for i := 0; i < nw; i++ {
+			wp, err := kit.DialRaw(srv.Sock)
+			if err != nil {
+				t.Fatalf("dial: %v", err)
+			}
+			defer wp.Close()
+			wg.Add(1)
+			go func() {
+				defer wg.Done()
+				<-start
+				for k := 0; k < per; k++ {
+					reply, err := wp.Transact("DB", []json.RawMessage{json.RawMessage(`{"op":"mutate","table":"T0","where":[["marker","==","ctr"]],"mutations":[["n","+=",1]]}`)})
+					if err != nil {
+						errs <- err
+						return
+					}
+					if !strings.Contains(string(reply), `"count":1`) {
+						errs <- fmt.Errorf("reply %s", reply)
+						return
+					}
+				}
+			}()
+		}
+		close(start)
+		wg.Wait()
+		close(errs)
+		for err := range errs {
+			fail("harness.writer", "an increment was not committed: %v", err)
+		}
+		total := int64(nw * per)
+		// every notification was acknowledged before its transact call returned
+		for i, p := range mons {
+			var seen []int64
+			for _, n := range p.Take() {
+				notes, err := decodeNotification(w, n)
+				if err != nil {
+					fail("notification.malformed", "monitor %d: %v", i, err)
+				}
+				for _, rows := range notes {
+					for _, rn := range rows {
+						src := rn.new
+						if src == nil {
+							src = rn.diff
+						}
+						if v, ok := src["n"]; ok && len(v.K) == 1 {
+							seen = append(seen, v.K[0].I)
+						}
+					}
+				}
+			}
+			kase.Seen = append(kase.Seen, seen)
+		}
+		for i, seen := range kase.Seen {
+			if int64(len(seen)) != total {
+				fail("notification.count", "monitor %d (%s) received %d notifications for %d committed transactions: %v", i, kase.Monitors[i], len(seen), total, seen)
+			}
+			for k, v := range seen {
+				if v != int64(k+1) {
+					fail("notification.order", "monitor %d (%s) was told the counter values %v: not the commit order 1..%d", i, kase.Monitors[i], seen, total)
+				}
+			}
+		}
+		kit.Record("C07", "order|"+strings.Join(kase.Monitors, ",")+fmt.Sprint(nw, per), total >= 4, func() interface{} { return kase }, "order:concurrent-writers")
 	})
 }
